@@ -1,9 +1,10 @@
 // Harness: runs the real grol packages (built from /repo's working tree, -tags verif) on generated
 // cases; writes, into -out:
-//   cases.txt   one case per line (fed unchanged to the extracted Coq model runner)
-//   impl.txt    the implementation's canonical observation line per case id
-//   oracle.json direct (model-free) oracle results, input distribution, samples
-package main
+//
+//	cases.txt   one case per line (fed unchanged to the extracted Coq model runner)
+//	impl.txt    the implementation's canonical observation line per case id
+//	oracle.json direct (model-free) oracle results, input distribution, samples
+package common
 
 import (
 	"encoding/hex"
@@ -41,7 +42,7 @@ func (r *Rng) Intn(n int) int {
 	}
 	return int(r.Next() % uint64(n))
 }
-func (r *Rng) Bool() bool { return r.Next()&1 == 1 }
+func (r *Rng) Bool() bool     { return r.Next()&1 == 1 }
 func (r *Rng) Pct(p int) bool { return r.Intn(100) < p }
 
 // ---- run context ----
@@ -83,22 +84,22 @@ func (c *Ctx) Case(line, obs string) string {
 	}
 	return id
 }
-func (c *Ctx) Eval()                  { c.Evals++ }
-func (c *Ctx) NonTrivial(key string)  { c.nontrivial[key] = true }
-func (c *Ctx) Count(k string)         { c.Dist[k]++ }
+func (c *Ctx) Eval()                 { c.Evals++ }
+func (c *Ctx) NonTrivial(key string) { c.nontrivial[key] = true }
+func (c *Ctx) Count(k string)        { c.Dist[k]++ }
 func (c *Ctx) Fail(sig, cs, d string) {
 	if len(c.Failures) < 2000 {
 		c.Failures = append(c.Failures, Failure{sig, cs, d})
 	}
 }
 
-func hx(b []byte) string {
+func Hx(b []byte) string {
 	if len(b) == 0 {
 		return "-"
 	}
 	return hex.EncodeToString(b)
 }
-func unhx(s string) []byte {
+func Unhx(s string) []byte {
 	if s == "-" || s == "" {
 		return nil
 	}
@@ -109,24 +110,18 @@ func unhx(s string) []byte {
 	return b
 }
 
-var props = map[string]func(*Ctx){}
-
-func main() {
-	prop := flag.String("prop", "", "property id")
+// Main is the entry point shared by every per-property harness binary (harness/cmd/<id>).
+func Main(prop string, f func(*Ctx)) {
 	tier := flag.String("tier", "quick", "quick|thorough")
 	seed := flag.Uint64("seed", 1, "seed")
 	out := flag.String("out", "", "output directory")
 	replay := flag.String("replay-case", "", "re-run a single case string through the direct oracle")
+	flag.String("prop", prop, "ignored (compat)")
 	flag.Parse()
-	f, ok := props[*prop]
-	if !ok {
-		fmt.Fprintf(os.Stderr, "unknown property %q\n", *prop)
-		os.Exit(2)
-	}
 	if err := os.MkdirAll(*out, 0o755); err != nil {
 		panic(err)
 	}
-	c := &Ctx{Prop: *prop, Tier: *tier, Seed: *seed, Out: *out, R: NewRng(*seed),
+	c := &Ctx{Prop: prop, Tier: *tier, Seed: *seed, Out: *out, R: NewRng(*seed),
 		nontrivial: map[string]bool{}, Dist: map[string]int{}, Extra: map[string]any{}, ReplayCase: *replay}
 	var err error
 	if c.cases, err = os.Create(filepath.Join(*out, "cases.txt")); err != nil {
@@ -155,14 +150,13 @@ func main() {
 	if err := os.WriteFile(filepath.Join(*out, "oracle.json"), b, 0o644); err != nil {
 		panic(err)
 	}
-	fmt.Printf("harness %s: cases=%d evals=%d nontrivial=%d failures=%d %s\n", c.Prop, c.nCases, c.Evals+c.nCases,
-		len(c.nontrivial), len(c.Failures), strings.Join(distSummary(c.Dist, keys), " "))
-}
-
-func distSummary(d map[string]int, keys []string) []string {
-	var out []string
+	var ds []string
 	for _, k := range keys {
-		out = append(out, fmt.Sprintf("%s=%d", k, d[k]))
+		ds = append(ds, fmt.Sprintf("%s=%d", k, c.Dist[k]))
 	}
-	return out
+	if len(ds) > 40 {
+		ds = ds[:40]
+	}
+	fmt.Printf("harness %s: cases=%d evals=%d nontrivial=%d failures=%d %s\n", c.Prop, c.nCases, c.Evals+c.nCases,
+		len(c.nontrivial), len(c.Failures), strings.Join(ds, " "))
 }
